@@ -1533,6 +1533,9 @@ def gen_pipe_field(draw, tier="quick"):
         if case["variant"] == "ordinary":
             # Ordinary kriging takes no mean
             case["mean"] = None
+    if kind in ("srf", "srf_vector") and draw(st.integers(0, 2)) == 0:
+        # variance upscaling by element volumes (scalar or one volume per point): the raw field is the scaled random part
+        case["upscale"] = {"how": draw(st.sampled_from(["scalar", "array"])) if kind == "srf" else "scalar", "v": draw(st.sampled_from([0.05, 1.0, 30.0]))}
     if dim > 1 and kind != "field" and draw(st.booleans()):
         # anisotropic, rotated model: mean / trend functions still see the given coordinates
         case["anis"] = [draw(st.sampled_from([0.3, 0.6, 2.0, 4.0])) for _ in range(dim - 1)]
@@ -1618,17 +1621,25 @@ def check_pipe_field(case, rec):
             return f(pos, field=raw0.copy(), mesh_type=mesh, post_process=post), raw0
         if kind in ("srf", "srf_vector"):
             kw = {"generator": "VectorField"} if kind == "srf_vector" else {}
+            ckw = {}
+            up = case.get("upscale")
+            if up:
+                kw["upscaling"] = "coarse_graining"
+                npts = int(np.prod(sshape))
+                ckw["point_volumes"] = float(up["v"]) if up["how"] == "scalar" else float(up["v"]) * np.linspace(0.5, 2.0, npts)
             s = gs.SRF(
                 _mk_model(case), mean=mean_l, normalizer=_norm_arg(case), trend=trend_l,
                 seed=case["seed"], mode_no=24, **kw,
             )
-            return s(pos, mesh_type=mesh, post_process=post), None
+            return s(pos, mesh_type=mesh, post_process=post, **ckw), None
         k, _cv, _tc, _cc = _mk_krige(case)
         if kind == "krige":
             return k(pos, mesh_type=mesh, post_process=post, return_var=False), None
         c = gs.CondSRF(k, mode_no=24)
         return c(pos, seed=case["seed"], mesh_type=mesh, post_process=post), None
 
+    if case.get("upscale"):
+        rec.label("variance_upscaling_" + case["upscale"]["how"])
     (raw, raw0), _ = call(run, False, _tags=tags, _what=f"{kind}(post_process=False)")
     raw = np.array(raw, dtype=float, copy=True)
     require(raw.shape == tuple(fshape), f"{kind}: raw field shape {raw.shape} != {tuple(fshape)}", dict(tags, kind="shape"))
